@@ -741,6 +741,23 @@ def matrix_ops(R, rng, sr, m, v, dt):
             glist([gopt('(%s, %s)' % (gsec((k[0],)), gsec((k[1],))) if (k[0],) in b.blocks else None) for k in keys]),
             gin, gtarr(tags_of(b)), gtarr(tags_of(xsol))), None)
         R.oracle('solve', 'result', xsol, dt, [mw, b])
+        if 'complex' not in dt:
+            # real matrix, complex right-hand side: the solution is complex and solves the system
+            cdt = 'complex64' if dt == 'float32' else 'complex128'
+            bc = b.copy()
+            bc.apply_to_arrays(lambda blk: (blk * (1 + 2j)).astype(cdt))
+            try:
+                xc = sr.linalg.solve(mw, bc)
+                extra = None
+                for kk, blk in xc.blocks.items():
+                    rows = [s2 for s2 in mw.blocks if s2[1] == kk[0]]
+                    if rows and (rows[0][0],) in bc.blocks:
+                        res = np.asarray(mw.blocks[rows[0]]) @ np.asarray(blk) - np.asarray(bc.blocks[(rows[0][0],)])
+                        if np.max(np.abs(res)) > (1e-3 if dt == 'float32' else 1e-9) * (1 + np.max(np.abs(np.asarray(bc.blocks[(rows[0][0],)])))):
+                            extra = 'a @ x differs from the complex right-hand side by %g in sector %r' % (float(np.max(np.abs(res))), kk)
+                R.oracle('solve_real_matrix_complex_rhs', 'result', xc, cdt, [mw, bc], extra=extra)
+            except np.linalg.LinAlgError:
+                pass
     # BlockVector arithmetic with weak scalars
     for name, f in (('vec_add_py', lambda z: z + 1.5), ('vec_rsub_py', lambda z: 2 - z), ('vec_pow_py', lambda z: abs_vec(z) ** 0.5),
                     ('vec_div_vec', lambda z: z / (z + 10)), ('vec_rdiv_py', lambda z: 1.0 / (z + 10))):
@@ -775,6 +792,31 @@ def mixed_chains(R, rng, sr, x, y, dt):
         if len(set(dts)) > 1:
             R.ctx.nontrivial(('mixed_real_plus_complex', dt, symname(x), tuple(dts)))
             run_fuse(R, z, groups, tagname='mixed_real_plus_complex_fuse')
+        # real + complex with DIFFERENT stored sectors: every block of the sum has the element type numpy gives for the
+        # operands present in that sector, and exactly their sum (blocks of one operand only are kept as they are)
+        ks = list(x.blocks)
+        if len(ks) >= 2 and not getattr(x, 'fermionic', False):
+            x2 = x.copy()
+            for kk in rng.sample(ks, rng.randint(1, len(ks) - 1)):
+                del x2.blocks[kk]
+            for order, (p, q) in (('real+complex', (x2, yc)), ('complex+real', (yc, x2))):
+                with warnings.catch_warnings():
+                    warnings.simplefilter('ignore')
+                    z2 = p + q
+                R.ctx.count()
+                bad = []
+                for kk in set(p.blocks) | set(q.blocks):
+                    parts = [o.blocks[kk] for o in (p, q) if kk in o.blocks]
+                    want = parts[0] + parts[1] if len(parts) == 2 else parts[0]
+                    got = z2.blocks.get(kk)
+                    if got is None or np.asarray(got).dtype != np.asarray(want).dtype or not np.array_equal(np.asarray(got), np.asarray(want)):
+                        bad.append((kk, None if got is None else str(np.asarray(got).dtype), str(np.asarray(want).dtype)))
+                if bad:
+                    R.failures.append({'oracle': 'block_dtype', 'op': 'add_' + order + '_other_sectors', 'result': 'sum', 'expected_dtype': cd,
+                                       'got': [[str(k), d] for k, d in tags_of(z2)],
+                                       'detail': 'blocks (sector, got dtype, expected dtype) %r differ from the sum of the operands present there' % (bad[:4],),
+                                       'inputs': [spec_of(p), spec_of(q)], 'args': None,
+                                       'input_block_dtypes': [[d for _, d in tags_of(p)], [d for _, d in tags_of(q)]]})
         if dt == 'float32':
             yd = y.copy()
             yd.apply_to_arrays(lambda b: b.astype('float64') + 2.0 ** -30)
